@@ -348,5 +348,5 @@ func TestC18(t *testing.T) {
 	if !requireHooks(t) {
 		return
 	}
-	ev.Check(t, "c18_no_leak", ev.N(6400, 160000), c18Gen, c18Run)
+	ev.Check(t, "c18_no_leak", ev.N(32000, 400000), c18Gen, c18Run)
 }
